@@ -1093,6 +1093,29 @@ func RunBer(in, out string) error {
 			} else {
 				rec([]byte{}, 0)
 			}
+		case "trailing":
+			// an element whose length says 0 (or 1) followed by further octets: the contents of an element are the octets its
+			// length announces, not what follows it (all 3-octet strings belong to the thorough tier; this class is the
+			// part of them that found a defect)
+			for _, tag := range []byte{0x00, 0x01, 0x02, 0x03, 0x04, 0x05, 0x0A, 0x0C, 0x16, 0x30, 0x31, 0x80, 0x81, 0xA0, 0xBF} {
+				heads := [][]byte{{tag, 0x00}, {tag, 0x01, 0x07}, {tag, 0x81, 0x00}}
+				if tag == 0xBF {
+					heads = [][]byte{{tag, 0x1F, 0x00}, {tag, 0x1F, 0x01, 0x07}}
+				}
+				for _, h := range heads {
+					for _, tail := range [][]byte{{0x00}, {0x01}, {0xFF}, {0x02, 0x01, 0x05}} {
+						in := append(append([]byte{}, h...), tail...)
+						for _, tn := range fuzzTargets {
+							r.decodeOnly(c, "trailing", in, prims[tn], tn, "")
+						}
+						for _, tn := range []string{"UsedUnitContainer", "IPAddress", "LocalSequenceNumber"} {
+							if t, ok := SchemaTypes[tn]; ok {
+								r.decodeOnly(c, "trailing", in, t, tn, c.Params)
+							}
+						}
+					}
+				}
+			}
 		case "deep":
 			// inputs whose only remarkable property is size: hundreds of thousands of repeated or properly nested
 			// constructed headers.  A decoder whose recursion depth follows the input dies with a fatal (unrecoverable)
